@@ -292,11 +292,31 @@ def gen_sites():
     file_mut = sorted(set(file_mut))
     fl_writers = sorted(set(fl_writers))
 
+    # every place a handle's `writable` flag is set: (file:function, expression)
+    ctors = []
+    for f in ["bucket.rs", "tx.rs", "cursor.rs"]:
+        text = strip_comments(no_test(src(f)))
+        fns = all_fns(text)
+        for name, body, _ in fns:
+            inner = [b for n, b, _ in fns if b != body and b in body]
+            own = body
+            for b in inner:
+                own = own.replace(b, "")
+            for m in re.finditer(r"\bwritable: ([^,\n]+),", own):
+                ctors.append(("%s:%s" % (f, name), m.group(1).strip()))
+            for m in re.finditer(r"\n\s+writable,\n", own):
+                lm = re.search(r"let writable = ([^;]+);", own)
+                ctors.append(("%s:%s" % (f, name), lm.group(1).strip() if lm else "?"))
+    if len(ctors) < 8:
+        raise GenError("found only %d places where a handle's writable flag is set" % len(ctors))
+
     def q(s):
         return '"%s"' % s
 
     txt = ["/- GENERATED by /verif/tools/gen_steps.py from /repo/src. Do not edit. -/",
            "import Jamm.Model.Steps", "", "namespace Jamm.Gen", "",
+           "/-- every place where the `writable` flag of a handle (Bucket, Cursor, Buckets) is set: (function, expression) -/",
+           "def writableSources : List (String × String) := [%s]" % ", ".join("(%s, %s)" % (q(a), q(b)) for a, b in ctors), "",
            "/-- every `pub fn` of `Bucket` and `Tx`: (name, calls an inner mutator / commit, starts with the read-only guard) -/",
            "def api : List Jamm.ApiFn := ["]
     txt.append(",\n".join("  { name := %s, mutates := %s, guarded := %s }" % (q(n), "true" if m else "false", "true" if g else "false") for n, m, g in api))
